@@ -8,6 +8,7 @@
    Attribution data (hold times) is not modelled in this version.  No Mathlib. -/
 import LdkModel.Prim.Hmac
 import LdkModel.Prim.ChaCha20
+import LdkModel.Generated.Consts
 namespace Ldk.Onion
 
 abbrev Bytes := List UInt8
@@ -165,12 +166,10 @@ def buildUnencryptedFailure (C : OnionCrypto) (k : FailKeys) (minLen code : Nat)
 def wrapFailure (C : OnionCrypto) (k : FailKeys) (pkt : Bytes) : Bytes :=
   xorB pkt (ks C k.ammag 0 pkt.length)
 
--- mirrors lightning/src/ln/onion_utils.rs::DEFAULT_MIN_FAILURE_PACKET_LEN
-def DEFAULT_MIN_FAILURE_PACKET_LEN : Nat := 256
-
-/-- mirrors lightning/src/ln/onion_utils.rs::build_failure_packet (data part) -/
+/-- mirrors lightning/src/ln/onion_utils.rs::build_failure_packet (data part); the minimum length
+    `DEFAULT_MIN_FAILURE_PACKET_LEN` is the GENERATED constant (Generated/Consts.lean, from the Rust source) -/
 def buildFailure (C : OnionCrypto) (k : FailKeys) (code : Nat) (data : Bytes) : Bytes :=
-  wrapFailure C k (buildUnencryptedFailure C k DEFAULT_MIN_FAILURE_PACKET_LEN code data)
+  wrapFailure C k (buildUnencryptedFailure C k Ldk.DEFAULT_MIN_FAILURE_PACKET_LEN code data)
 
 /-- what the hops before the failing one do on the way back (first element = hop nearest the sender) -/
 def relayFailure (C : OnionCrypto) (pre : List FailKeys) (pkt : Bytes) : Bytes :=
